@@ -53,7 +53,7 @@ fn emit(args: &Args) {
                 continue;
             }
         }
-        let with_variants = matches!(g.family.as_str(), "rec" | "getter" | "random" | "extras") || (g.family == "rand" && g.id.ends_with(|c: char| c == '0' || c == '3' || c == '6' || c == '9')) || ["core_ops", "core_ws", "core_both", "core_kinds", "core_pred", "core_json", "core_empty", "core_wsplus", "core_commentplus", "core_skipuntil", "stack_basic", "stack_nested", "repo_csv"].contains(&g.id.as_str());
+        let with_variants = matches!(g.family.as_str(), "rec" | "getter" | "random" | "extras") || (g.family == "rand" && g.id.ends_with(|c: char| c == '0' || c == '3' || c == '6' || c == '9')) || ["core_ops", "core_ws", "core_both", "core_kinds", "core_pred", "core_json", "core_empty", "core_wsplus", "core_commentplus", "core_skipuntil", "core_nonormal", "core_cntexact", "core_cntmax", "core_cntmin", "core_cntminmax", "core_single", "core_singlerec", "stack_basic", "stack_nested", "repo_csv"].contains(&g.id.as_str());
         let with_walker = g.family != "kinds" && g.family != "slice";
         match emit::grammar_module(g, with_variants, with_walker) {
             Ok(m) => mods.push((g.id.clone(), m.text, m.rules * if with_variants { 5 } else { 1 }, g.family.clone())),
